@@ -18,7 +18,7 @@ from concurrent.futures import ThreadPoolExecutor
 VERIF = os.path.dirname(os.path.dirname(os.path.abspath(__file__)))
 COQ = os.path.join(VERIF, "coq")
 HARNESS = os.path.join(VERIF, "harness")
-REPO = "/repo"
+REPO = os.environ.get("VERIF_REPO", "/repo")
 sys.path.insert(0, os.path.join(VERIF, "tools"))
 from props import PROPS, ALLOWED_AXIOMS  # noqa: E402
 
@@ -140,6 +140,7 @@ def coq_build(ctx):
     targets = ctx.cfg["coq_targets"]
     with Lock("coq"):
         mk, cp = os.path.join(COQ, "Makefile"), os.path.join(COQ, "_CoqProject")
+        sh([sys.executable, os.path.join(VERIF, "tools", "gen_coqproject.py")])
         if not os.path.exists(mk) or os.path.getmtime(mk) < os.path.getmtime(cp):
             sh("coq_makefile -f _CoqProject -o Makefile", cwd=COQ)
         rc, out = sh(["make", "-j16"] + [t + "o" for t in targets], cwd=COQ, timeout=3000)
